@@ -14,6 +14,7 @@ import XzVerif.Model.Select
 import XzVerif.Model.HashTable
 import XzVerif.Model.BinTree
 import XzVerif.Model.XzW
+import XzVerif.Model.Writer2F
 /-
   driver — line protocol around the executable definitions of Spec and Model.
   One request per line on stdin, one reply line on stdout.  Core-only, so it links.
@@ -245,6 +246,9 @@ def parseCall (s : String) : Option W2.Call :=
 def errName : Option W2.Err → String
   | none => "ok" | some .closed => "closed" | some .limit => "limit" | some (.other _) => "other"
 
+def ferrName : Option W2F.FErr → String
+  | none => "ok" | some .sink => "sink" | some (.w e) => errName (some e)
+
 def handle (line : String) : String :=
   match (line.trimAscii.toString.splitOn " ").filter (· ≠ "") with
   | ["dictsizes"] => " ".intercalate ((List.range 41).map (fun c => toString (Spec.dictSize c)))
@@ -393,6 +397,23 @@ def handle (line : String) : String :=
       " ".intercalate (rs.map (fun (r, sz) => s!"{r.n}:{errName r.err}@{sz}")) ++ " | " ++ hex w.1 ++ " | " ++
         ",".intercalate (w.2.toList.map (fun c => s!"{nameOfKind c.kind}:{c.raw.size}:{c.ops.size}"))
     | _, _, _, _ => "bad-op"
+  -- w2frun <matcher> <propsByte> <dictCap> <bufSize> <k> <mode> <call>... → the LZMA2 writer model on a failing sink:
+  -- per call n:err:panic@sinkLen | sink bytes | number of sink calls
+  | "w2frun" :: mt :: pb :: dc :: bs :: k :: mode :: calls =>
+    match pb.toNat?.bind Lzma2.propsOfByte, dc.toNat?, bs.toNat?, k.toNat?, mode.toNat?, calls.mapM parseCall with
+    | some p, some dc, some bs, some k, some mode, some calls =>
+      let cfg : W2.Cfg := { props := p, dictCap := dc, bufSize := bs }
+      let F := W2F.planOf k mode
+      let (out, ncalls, rs) :=
+        if mt = "1" then
+          let (s, rs) := W2F.run cfg BT.BT4 F (W2F.init cfg (BT.St.new dc bs)) calls
+          (s.w.out, s.calls, rs)
+        else
+          let (s, rs) := W2F.run cfg HT.HT4 F (W2F.init cfg (HT.St.new dc bs)) calls
+          (s.w.out, s.calls, rs)
+      " ".intercalate (rs.map (fun (r, sz) => s!"{r.n}:{ferrName r.err}:{if r.panic then 1 else 0}@{sz}")) ++ " | " ++ hex out ++
+        s!" | calls={ncalls}"
+    | _, _, _, _, _, _ => "bad-op"
   -- btcands <dictCap> <hex(history)> <hex(look ≤ 273)> → special:a:b of the Lean binary tree model
   | ["btcands", dc, h, l] => match dc.toNat? with
     | some dc =>
